@@ -331,17 +331,21 @@ mod verif_bounded_glob {
 
     /// every sequence of 1..=3 patterns out of: two existing literals, a glob matching two files, a glob matching nothing, a missing literal.
     /// A pattern that selects nothing is a missing source wherever it stands: the expansion must be an error; otherwise it is the
-    /// concatenation, in command-line order, of what each pattern selects.
+    /// set of names the patterns select: every one of them, also two names of one inode and a link beside its referent.
     #[test]
     fn bounded_expand_globs() {
         let dir = tempfile::TempDir::new().unwrap();
         let d = dir.path();
-        for f in ["a", "b", "x1.txt", "x2.txt"] { std::fs::File::create(d.join(f)).unwrap(); }
+        for f in ["a", "b", "h1", "x1.txt", "x2.txt"] { std::fs::File::create(d.join(f)).unwrap(); }
+        std::fs::hard_link(d.join("h1"), d.join("h2")).unwrap();              // two names of one inode, neighbours in sort order
+        std::os::unix::fs::symlink("a", d.join("a.lnk")).unwrap();           // a link next to its referent
         let p = |s: &str| d.join(s).to_string_lossy().into_owned();
         let atoms: Vec<(String, Vec<PathBuf>)> = vec![
             (p("a"), vec![d.join("a")]),
             (p("b"), vec![d.join("b")]),
             (p("x*.txt"), vec![d.join("x1.txt"), d.join("x2.txt")]),
+            (p("h?"), vec![d.join("h1"), d.join("h2")]),
+            (p("a.lnk"), vec![d.join("a.lnk")]),
             (p("none*"), vec![]),
             (p("missing"), vec![]),
         ];
@@ -359,7 +363,12 @@ mod verif_bounded_glob {
                     // (an expansion that is empty altogether is rejected by main itself: "No source files found")
                     Ok(got) if empty && got.is_empty() => {}
                     Ok(got) if empty => { fails += 1; if fails <= 6 { report("glob_missing", format!("patterns {:?}: one of them selects nothing (a missing source) but the expansion succeeded with {} path(s)", idx.iter().map(|i| atoms[*i].0.rsplit('/').next().unwrap().to_string()).collect::<Vec<_>>(), got.len())); } }
-                    Ok(got) => if got != want { fails += 1; if fails <= 6 { report("glob_expansion", format!("patterns {:?}: expansion is not the concatenation of the matches in command-line order", pats)); } },
+                    // every selected name, and nothing else (order and repetition of identical names are not the property's business)
+                    Ok(got) => {
+                        let gs: std::collections::BTreeSet<&PathBuf> = got.iter().collect();
+                        let ws: std::collections::BTreeSet<&PathBuf> = want.iter().collect();
+                        if gs != ws { fails += 1; if fails <= 6 { report("glob_expansion", format!("patterns {:?}: the expansion is not exactly the set of names the patterns select (missing: {:?}, extra: {:?})", pats, ws.difference(&gs).collect::<Vec<_>>(), gs.difference(&ws).collect::<Vec<_>>())); } }
+                    },
                     Err(_) => if !empty { fails += 1; if fails <= 6 { report("glob_expansion", format!("patterns {:?}: every pattern selects something but the expansion failed", pats)); } },
                 }
             }
@@ -422,7 +431,7 @@ def backup_bounded(repo=None, overlay=None):
             'built': ran is not None,
             'failures': fails[:40],
             'cases': sum(int(x) for x in ms) + 8 * 2010 + 8,
-            'bound': 'expand_globs: every sequence of 1..3 patterns out of {two existing literals, a glob matching two files, a glob matching nothing, a missing literal} (155 cases); option values (Reflink, Backup, Drivers FromStr): every upper/lower-case spelling of every table word maps to its variant; the words of the other tables, every word with one character dropped or one of {s,x,1,blank,-} prepended/appended, and "", " ", "0", "true", "yes" are rejected; is_num_backup: 8 names (incl. non-UTF-8, prefix-like, one with a newline) x N in 1..=2000 plus 10 large N, 8 non-backup names; next number at the ends of the range: 2 names x all subsets of {0, 1, u64::MAX-1, u64::MAX}; 4 spellings of the destination (bare, ./, sub/, sub/../) x all subsets of {1,2,10}; 3 destinations reached through symbolic links (last component into another directory, into the same directory, a linked parent) x all subsets of {1,2,10}; '
+            'bound': 'expand_globs: every sequence of 1..3 patterns out of {two existing literals, a glob matching two files, a glob matching two hard links of one inode, a symbolic link beside its referent, a glob matching nothing, a missing literal} (399 cases); option values (Reflink, Backup, Drivers FromStr): every upper/lower-case spelling of every table word maps to its variant; the words of the other tables, every word with one character dropped or one of {s,x,1,blank,-} prepended/appended, and "", " ", "0", "true", "yes" are rejected; is_num_backup: 8 names (incl. non-UTF-8, prefix-like, one with a newline) x N in 1..=2000 plus 10 large N, 8 non-backup names; next number at the ends of the range: 2 names x all subsets of {0, 1, u64::MAX-1, u64::MAX}; 4 spellings of the destination (bare, ./, sub/, sub/../) x all subsets of {1,2,10}; 3 destinations reached through symbolic links (last component into another directory, into the same directory, a linked parent) x all subsets of {1,2,10}; '
                      'next_backup_num/has_backup/get_backup_path: 2 names (one non-UTF-8) x all 1024 subsets, a name with a newline x 29 subsets, of existing numbers {1,2,9,10,11,99,100,101,205,1000}',
             'wall_s': round(time.time() - t0, 1),
             'tail': '' if ran is not None else out[-1500:],
